@@ -144,7 +144,7 @@ UNITS = {
     },
     'pyglue': {
         'template': 'pyglue.vrs', 'backend': 'verus',
-        'serves': ['C13'],
+        'serves': ['C13', 'C01', 'C03', 'C04', 'C09', 'C11'],
     },
     'ctor': {
         'template': 'ctor.vrs', 'backend': 'verus',
@@ -178,7 +178,7 @@ HOOK_COMMITS = []
 
 PROPS = {
     'C01': {
-        'units': ['kmer_gen'], 'deps': [], 'replay': 'c01,c13',
+        'units': ['kmer_gen', 'pyglue'], 'deps': [], 'replay': 'c01,c13',
         'level_text': 'Verus proves, for the verbatim text of KmerGenerator::new/next and every byte string and every k in 1..=31, '
                       'that each call returns exactly the next position whose k-window is clean with the exact forward and reverse codes '
                       '(unbounded: all lengths, all k); a ghost driver lifts this to the whole stream.',
@@ -197,7 +197,7 @@ PROPS = {
         'not_reached': [],
     },
     'C09': {
-        'units': ['minimiser'], 'deps': [], 'replay': 'c09,c13',
+        'units': ['minimiser', 'pyglue'], 'deps': [], 'replay': 'c09,c13',
         'level_text': 'Verus proves for the verbatim MinimiserGenerator::new/next, every byte string and every 1 <= m <= w, m <= 31: the representation invariant, '
                       'absence of panics/overflow/unwrap-on-None, termination, and that every emitted triple carries a real minimiser (never the u64::MAX placeholder) '
                       'and spans at least one full window inside the sequence.',
@@ -215,7 +215,7 @@ PROPS = {
         'not_reached': [],
     },
     'C03': {
-        'units': ['posmaps', 'header', 'ctor', 'posmaps_count'], 'deps': ['kmer_gen', 'n2k'], 'replay': 'c03,c12,c13',
+        'units': ['posmaps', 'header', 'ctor', 'posmaps_count', 'pyglue'], 'deps': ['kmer_gen', 'n2k'], 'replay': 'c03,c12,c13',
         'level_text': 'Verus proves for the verbatim kmer_pos_maps and every k in 1..=15 that (pos_map, pos_kmer, count) is the order isomorphism between [0,count) '
                       'and the canonical k-mers (x <= revcomp(x)): canonical codes map to indices below count and back, the index->code map is strictly increasing '
                       '(hence index == rank in increasing code order), non-canonical entries are 0 and the map has no other key; and that the three header builders '
@@ -229,7 +229,7 @@ PROPS = {
                         'String::join with the delimiter and the write of the header line (std)'],
     },
     'C04': {
-        'units': ['oligo_vec', 'float_kani', 'ctor'], 'deps': ['kmer_gen', 'posmaps', 'mmap_rows', 'batch_loops', 'reader_glue'], 'replay': 'c04,c13',
+        'units': ['oligo_vec', 'float_kani', 'ctor', 'pyglue'], 'deps': ['kmer_gen', 'posmaps', 'mmap_rows', 'batch_loops', 'reader_glue'], 'replay': 'c04,c13',
         'level_text': 'Verus proves for the verbatim accumulation loop (three copies: oligo.rs vectorise_one, oligocgr.rs seq_to_kmer, pybindings vectorise_one), '
                       'every byte string shorter than 2^53 and every k in 1..=15: the row has one value per canonical column and column i holds of_nat(number of valid '
                       'windows whose canonical code is the column k-mer), raw, or divided by fmax(1, total valid windows) when normalised (all-zero row when there is no window); '
@@ -241,7 +241,7 @@ PROPS = {
         'not_reached': ['text rendering of the row (format!("{:.6}"), join) and the file/CLI path: see C05', 'pyo3 argument conversion for the binding'],
     },
     'C14': {
-        'units': ['mmap_rows', 'oligo_vec', 'cov_vec', 'count_route', 'reader_glue'], 'deps': ['kmer_gen', 'posmaps', 'header'], 'replay': 'c14',
+        'units': ['mmap_rows', 'oligo_vec', 'cov_vec', 'count_route', 'reader_glue'], 'deps': ['kmer_gen', 'posmaps', 'header'], 'replay': 'c14,c08',
         'level_text': 'Verus proves (a) every get_unchecked / get_unchecked_mut call site of the oligo accumulation loops (3 copies) against exactly the '
                       'safety precondition of the unchecked access, for every byte string and every k <= 15; (b) for the integer layout statements of vectorise_mmap, lifted '
                       'verbatim: per-row size equals the real row length for every delimiter length, the mapping size is header + records x row length (exact tiling), and each '
@@ -252,7 +252,7 @@ PROPS = {
         'not_reached': ['the glue between the lifted fragments (closure captures, `let header_len = header.len()`, the Mutex-guarded record hand-out)', 'unsafe pointer copy inside MMWriter::write_at; memmap2'],
     },
     'C11': {
-        'units': ['cgr', 'float_kani', 'batch_loops', 'cli_wiring'], 'deps': ['reader_glue'], 'replay': 'c11,c13',
+        'units': ['cgr', 'float_kani', 'batch_loops', 'cli_wiring', 'pyglue'], 'deps': ['reader_glue'], 'replay': 'c11,c13',
         'level_text': 'Verus proves for the verbatim cgr_maps (both copies) and vectorise_one (core and Python binding), for every byte string: the corner table is exactly '
                       '{A,a->(0,0); C,c->(0,S); G,g->(S,S); T,t,U,u->(S,0)} with no other key and the centre is (S/2,S/2); Ok(v) iff every byte is a nucleotide letter, then one point per base and '
                       'point i == midpoint(corner(base i), point i-1 or centre) (so it depends only on the first i bases); any other byte gives Err and no coordinates. Spec-level lemma: every '
